@@ -87,10 +87,14 @@ func suiteAtom(t *testing.T, cfg cfgT) {
 		for i := 0; i < 150; i++ {
 			setup = append(setup, mk(i))
 		}
+		badCase := -1 // index of the delta whose action is spelled in another case (REST only): the whole request is refused
 		emitPatch := func(ins, del []*ketoapi.RelationTuple, grpc bool) {
 			var items, parts []string
 			req := &rts.TransactRelationTuplesRequest{}
 			add := func(act string, tu *ketoapi.RelationTuple) {
+				if !grpc && badCase == len(parts) {
+					act = map[string]string{"insert": "INSERT", "delete": "Delete"}[act]
+				}
 				tb, _ := json.Marshal(tu)
 				parts = append(parts, fmt.Sprintf(`{"action":%q,"relation_tuple":%s}`, act, tb))
 				if grpc {
@@ -189,10 +193,16 @@ func suiteAtom(t *testing.T, cfg cfgT) {
 					}
 					out.stat("fault.invalid_tuple")
 				}
+			case 4: // an action spelled in another case somewhere in a REST request
+				if ni+nd > 1 {
+					badCase = hr.intn(ni + nd)
+					out.stat("fault.action_case")
+				}
 			default:
 				out.stat("fault.none")
 			}
-			emitPatch(ins, del, hr.chance(1, 2))
+			emitPatch(ins, del, badCase < 0 && hr.chance(1, 2))
+			badCase = -1
 		}
 		// Manager level, with NO enclosing transaction (what an embedder of the registry calls; the handlers wrap their calls
 		// in one): a multi-tuple delete of more than one internal batch whose LAST batch fails must delete nothing
